@@ -189,6 +189,19 @@ def getitem(interp, obj, idx, frame):
       return obj[c]
     raise unsupported(f'list index {idx!r}')
   if isinstance(obj, dict):
+    if is_concrete(idx) and idx not in obj:
+      opaque = [k for k in obj if isinstance(k, SAny)]
+      if opaque:
+        # the key may be one of the opaque keys: fork over them (+ "none")
+        c = interp.path.decide(len(opaque) + 1, 'opaque-key')
+        if c < len(opaque):
+          k = opaque[c]
+          r = interp.compare(ast.Eq, k, idx, frame)
+          interp.path.assume(interp.truth_z(r))
+          return obj[k]
+        for k in opaque:
+          interp.path.assume(z3.Not(interp.truth_z(interp.compare(ast.Eq, k, idx, frame))), check=False)
+        raise pyraise(KeyError, idx)
     if is_concrete(idx) or isinstance(idx, SObj):
       try:
         return obj[idx]
@@ -203,6 +216,10 @@ def getitem(interp, obj, idx, frame):
         return obj.items[idx]
       if not obj.open_:
         raise pyraise(KeyError, idx)
+      # open remainder: present (opaque value) or KeyError
+      if interp.path.branch(interp.opendict_has(obj, idx)):
+        return SAny(f'opendict[{idx!r}]')
+      raise pyraise(KeyError, idx)
     raise unsupported('symbolic dict lookup')
   if isinstance(obj, SObj):
     m = interp.getattr_(obj, '__getitem__', frame)
@@ -281,12 +298,19 @@ def setitem(interp, obj, idx, v, frame):
       obj[idx] = v
       return
     if isinstance(idx, SAny):
-      interp.path.event('assumption', 'dict-store-with-opaque-key-dropped')
+      # an opaque key: kept under its own identity (distinct opaque keys are
+      # assumed distinct; membership tests against it stay opaque)
+      interp.path.event('assumption', 'dict-store-with-opaque-key: distinct from other keys')
+      obj[idx] = v
       return
     raise unsupported('dict store with symbolic key')
   if isinstance(obj, SDict):
     if is_concrete(idx):
       obj.items[idx] = v
+      return
+    if isinstance(idx, SAny) and obj.open_:
+      obj.nonempty = True
+      interp.path.event('write', 'opendict[]', (obj, idx, v))
       return
     raise unsupported('dict store with symbolic key')
   if isinstance(obj, SObj):
@@ -817,7 +841,11 @@ def _b_len(interp, args, kwargs, frame):
     return SInt(z3.Length(v.z))
   if isinstance(v, SDict):
     if v.open_:
-      raise unsupported('len of open dict')
+      n = z3.Int(fresh_name('dictlen'))
+      t = interp.truth_z(v)
+      t = z3.BoolVal(t) if isinstance(t, bool) else t
+      interp.path.assume(z3.And(n >= len(v.items), (n > 0) == t), check=False)
+      return SInt(n)
     return len(v.items)
   if isinstance(v, SObj):
     h = interp.policy.handlers.get(('len', v.cls))
